@@ -441,6 +441,23 @@ pub fn large_irregular_spaces(tier: &str, futures: bool, streams: bool, declared
     v
 }
 
+/// Thorough tier only, placed LAST in a check's list of spaces (it is by far the largest):
+/// every labelled DAG on 5 nodes under a reduced menu - the 10 `_with` methods x order, no limit
+/// (limit 1 and 2 for for_each_concurrent_with only).
+pub fn n5_space(tier: &str, extra_limits: &[Option<usize>]) -> Vec<Space> {
+    if tier != "thorough" {
+        return vec![];
+    }
+    let extra: Vec<Option<usize>> = extra_limits.to_vec();
+    vec![space("plain runs, 10 _with APIs x order (extra limits for for_each_concurrent_with), all 29281 labelled DAGs on 5 nodes", shape_specs(5, false), None, move |s| {
+        let mut c = cfgs_plain(s.n, &Api::all_with(), &[None], &REVS);
+        if !extra.is_empty() {
+            c.extend(cfgs_plain(s.n, &[Api { kind: Kind::ForEach, mutable: false, with: true }], &extra, &FWD));
+        }
+        c
+    })]
+}
+
 pub fn conc_with() -> Vec<Api> {
     Api::all_with().into_iter().filter(|a| a.concurrent()).collect()
 }
@@ -574,7 +591,7 @@ pub fn c01(tier: &str) -> (Vec<Space>, Focus) {
 
 fn gen_opts(tier: &str) -> GenOpts {
     if tier == "thorough" {
-        GenOpts { n_plain: 5, n_int: 4, n_fail: 4, n_stream: 5, limits: vec![None, Some(1), Some(2)], strats: STRATS_FULL.to_vec(), include_n0: true }
+        GenOpts { n_plain: 4, n_int: 4, n_fail: 4, n_stream: 5, limits: vec![None, Some(1), Some(2)], strats: STRATS_FULL.to_vec(), include_n0: true }
     } else {
         GenOpts { n_plain: 4, n_int: 3, n_fail: 3, n_stream: 4, limits: vec![None, Some(1), Some(2)], strats: STRATS_FULL.to_vec(), include_n0: true }
     }
@@ -587,6 +604,7 @@ pub fn c02(tier: &str) -> (Vec<Space>, Focus) {
     v.extend(mid_spaces(tier, true, true, None));
     v.extend(antichain_spaces(tier, AntiOpts { futures: true, streams: true, limits: vec![None, Some(2)], limit_below_width: false, fail_antichain: false }));
     v.extend(large_irregular_spaces(tier, true, true, false));
+    v.extend(n5_space(tier, &[]));
     let focus = Focus {
         props: vec![2],
         nontrivial_s: |_, f| f.starts >= 2,
@@ -667,6 +685,7 @@ pub fn c03(tier: &str) -> (Vec<Space>, Focus) {
     v.extend(mid_spaces(tier, true, true, None));
     v.extend(antichain_spaces(tier, AntiOpts { futures: true, streams: true, limits: vec![None, Some(1), Some(2)], limit_below_width: false, fail_antichain: false }));
     v.extend(large_irregular_spaces(tier, true, true, false));
+    v.extend(n5_space(tier, &[]));
     let focus = Focus {
         props: vec![3],
         nontrivial_s: |_, f| f.returned && f.starts >= 2,
@@ -722,6 +741,7 @@ pub fn c04(tier: &str) -> (Vec<Space>, Focus) {
     v.extend(mid_spaces(tier, true, false, None));
     v.extend(antichain_spaces(tier, AntiOpts { futures: true, streams: false, limits: vec![None, Some(1), Some(2)], limit_below_width: true, fail_antichain: true }));
     v.extend(large_irregular_spaces(tier, true, false, false));
+    v.extend(n5_space(tier, &[Some(1)]));
     let focus = Focus {
         props: vec![4],
         nontrivial_s: |_, f| f.returned && f.idle_points >= 1,
@@ -739,7 +759,8 @@ pub fn c04(tier: &str) -> (Vec<Space>, Focus) {
 pub fn c09(tier: &str) -> (Vec<Space>, Focus) {
     let mut o = gen_opts(tier);
     o.n_stream = 0;
-    let v = general_spaces(&o);
+    let mut v = general_spaces(&o);
+    v.extend(n5_space(tier, &[]));
     let focus = Focus {
         props: vec![9],
         nontrivial_s: |_, f| f.returned && !f.all_started,
@@ -833,7 +854,7 @@ pub fn c06(tier: &str) -> (Vec<Space>, Focus) {
     specs.extend(decl_specs(3, 1));
     v.push(space("all DAGs x declarations n<=2 T=2, n=3 T=1; 6 concurrent _with APIs x order x limit{None,0}; stream, stream_with", specs, None, cfgs.clone()));
     v.push(space("all DAGs x declarations n=3 T=2", decl_specs(3, 2), None, cfgs.clone()));
-    let nmax = if tier == "thorough" { 5 } else { 4 };
+    let nmax = 4;
     let a2 = apis.clone();
     v.push(space(&format!("shapes n<={nmax} without declarations, concurrent APIs (plain and _with)"), shapes_upto(0, nmax, true), None, move |s| {
         let mut all: Vec<Api> = a2.clone();
@@ -852,6 +873,7 @@ pub fn c06(tier: &str) -> (Vec<Space>, Focus) {
     v.push(space("StreamOpts builder methods called in every order, shapes 1<=n<=3", shapes_upto(1, 3, false), None, |s| {
         cfgs_opts_orders(s.n, &conc_with(), &[None], true)
     }));
+    v.extend(n5_space(tier, &[]));
     let focus = Focus {
         props: vec![6],
         nontrivial_s: |_, f| f.idle_points >= 1 && f.max_inflight >= 2,
@@ -990,7 +1012,7 @@ pub fn c08(tier: &str) -> (Vec<Space>, Focus) {
 // C10
 
 pub fn c10(tier: &str) -> (Vec<Space>, Focus) {
-    let nmax = if tier == "thorough" { 5 } else { 4 };
+    let nmax = 4;
     let mut v = vec![];
     let lims = vec![None, Some(0), Some(1), Some(2), Some(3)];
     let l1 = lims.clone();
@@ -1024,6 +1046,7 @@ pub fn c10(tier: &str) -> (Vec<Space>, Focus) {
     }));
     v.extend(mid_spaces(tier, true, false, Some(2)));
     v.extend(antichain_spaces(tier, AntiOpts { futures: true, streams: false, limits: vec![Some(1), Some(2), Some(3), Some(5)], limit_below_width: true, fail_antichain: false }));
+    v.extend(n5_space(tier, &[Some(1), Some(2), Some(3)]));
     let focus = Focus {
         props: vec![10],
         nontrivial_s: |c, f| match c.limit {
